@@ -145,7 +145,11 @@ class G:
             elif r < 0.75 or depth <= 0:
                 out.append(self.probes())
             else:
-                out.append(["scope", rng.choice(["defn", "fn", "defclass", "lfor", "for", "let", "let"]), self.stmts(depth - 1) + [self.probes()]])
+                sc = ["scope", rng.choice(["defn", "fn", "defclass", "lfor", "for", "let", "let"]), self.stmts(depth - 1) + [self.probes()]]
+                if sc[1] == "defn" and rng.random() < 0.4:
+                    # a return annotation that calls a name: it belongs to the ENCLOSING scope, not to the function body
+                    sc.append(rng.choice(USER + ["a1", "zz"]))
+                out.append(sc)
         return out
 
 
@@ -243,7 +247,11 @@ def render(stmts, uid, depth=0):
             kind, body = s[1], render(s[2], f"{uid}_{i}", depth + 1)
             fn = f"sc{uid}_{i}"
             if kind == "defn":
-                out.append(f"(defn {fn} [] " + " ".join(body) + f") ({fn})")
+                if len(s) > 3:
+                    ann = f'#^ ({s[3]}) '
+                    out.append(f"(defn {ann}{fn} [] " + " ".join(body) + f') (.append OUT (get {fn}.__annotations__ "return")) ({fn})')
+                else:
+                    out.append(f"(defn {fn} [] " + " ".join(body) + f") ({fn})")
             elif kind == "fn":
                 out.append("((fn [] " + " ".join(body) + "))")
             elif kind == "defclass":
@@ -345,6 +353,18 @@ class Model:
                             else:
                                 out.append("UNDEF")
                 elif k == "scope":
+                    if len(s) > 3:
+                        # the annotation is looked up where the defn stands
+                        m = mangle(s[3])
+                        if m in extra:
+                            out.append(extra[m])
+                        else:
+                            for f in reversed(frames):
+                                if m in f:
+                                    out.append(f[m])
+                                    break
+                            else:
+                                out.append(module.get(m, "UNDEF"))
                     if s[1] in ("for", "let"):
                         walk(s[2])
                     else:
@@ -392,8 +412,15 @@ def sanitize(stmts, model, extra, frames=None, module=None):
             if s[1] in ("for", "let"):
                 out.append(["scope", s[1], sanitize(s[2], model, extra, frames, module)])
             else:
+                # the annotation is kept only when the name is a macro where the defn stands (a plain call of an
+                # undefined function in a signature would fail at definition time)
+                keep_ann = []
+                if len(s) > 3:
+                    m_ = mangle(s[3])
+                    if m_ in extra or any(m_ in f for f in frames) or m_ in module:
+                        keep_ann = [s[3]]
                 frames.append({})
-                out.append(["scope", s[1], sanitize(s[2], model, extra, frames, module)])
+                out.append(["scope", s[1], sanitize(s[2], model, extra, frames, module)] + keep_ann)
                 frames.pop()
         else:
             out.append(s)
@@ -587,7 +614,7 @@ def _simpler(stmts):
         if s[0] == "scope":
             yield stmts[:i] + s[2] + stmts[i + 1:]
             for b in _simpler(s[2]):
-                yield stmts[:i] + [["scope", s[1], b]] + stmts[i + 1:]
+                yield stmts[:i] + [["scope", s[1], b] + list(s[3:])] + stmts[i + 1:]
         elif s[0] == "probe" and len(s[1]) > 1:
             for j in range(len(s[1])):
                 yield stmts[:i] + [["probe", s[1][:j] + s[1][j + 1:]]] + stmts[i + 1:]
